@@ -4,8 +4,7 @@
 set -u
 prop="$1"; file="$2"; from="$3"; to="$4"
 S=/tmp/rv
-[ -d $S ] || { cp -r /repo $S; rm -rf $S/.git; }
-cp /repo/"$file" $S/"$file"
+mkdir -p $S; rsync -a --delete --exclude .git /repo/ $S/
 python3 - "$S/$file" "$from" "$to" <<'PY'
 import sys
 p,a,b=sys.argv[1:4]
